@@ -174,6 +174,28 @@ CHECKS = {
         "odd targets (other schemes, relative, malformed) are grey except for 'never requested'",
         "DESIGN.md §2 C16",
     ),
+    "C17": (
+        "exploration",
+        "Hypothesis-generated proxy configurations x grammar/hostile request URLs through router + ProxyHandler + "
+        "GeminiClient to a scripted upstream; connection-log oracle + reference URL mapping",
+        "Every outgoing connection attempt is logged by the virtual loop: anything but (upstream host, port) is a decoy "
+        "hit. The request line recorded by the upstream must equal the reference mapping (base + path minus prefix when "
+        "stripping on a segment boundary + query), compared through an independent URL splitter.",
+        "grey: blank/control characters urllib strips, mapped URL near/over 1024 bytes",
+        "DESIGN.md §2 C17",
+    ),
+    "C18": (
+        "exploration",
+        "Hypothesis upstream-behaviour generation (conforming responses in many charsets, C13 response grammar, fault "
+        "at every stage) through the full in-memory proxy pipeline under a virtual clock; verbatim-relay / single-43 oracle",
+        "Downstream must receive exactly the upstream's header and body bytes (any status, media type, charset, BOM), "
+        "3x relayed without a second upstream connection, and for refuse / TLS garbage / early close / garbage header / "
+        "reset / stall at each stage exactly one well-formed 43 within 2 x location timeout; nothing is written after a "
+        "downstream disconnect.",
+        "grey: malformed upstream responses that still have a complete non-2x header, unknown/invalid charsets, "
+        "unsendable upstream metas",
+        "DESIGN.md §2 C18",
+    ),
 }
 
 PENDING_REASON = "check not built yet in this round (work in progress; technique applies, see DESIGN.md)"
